@@ -184,6 +184,9 @@ pub enum ParseErrorKind {
     #[error("Overflow in number literal")]
     OverflowInNumberLiteral,
 
+    #[error("Too many '!' in multifactorial (at most {max} are supported)", max = u16::MAX)]
+    FactorialOrderTooLarge,
+
     #[error("Expected dimension exponent")]
     ExpectedDimensionExponent,
 
@@ -1349,6 +1352,13 @@ impl<'a> Parser<'a> {
                 Some(span) => *span = span.extend(&current_span),
             };
             order += 1;
+        }
+        if order > u16::MAX as usize {
+            // The order is stored in a 16 bit operand of the factorial instruction
+            return Err(ParseError::new(
+                ParseErrorKind::FactorialOrderTooLarge,
+                span.unwrap(),
+            ));
         }
         if order != 0 {
             expr = Expression::UnaryOperator {
